@@ -1,6 +1,7 @@
 package props
 
 import (
+	"go/token"
 	"go/types"
 	"sort"
 	"strings"
@@ -24,6 +25,7 @@ func C10(p *engine.Prog, r *engine.Report) {
 	c10R4(p, r)
 	c07R5(p, r, "C10-R4")
 	c10R5(p, r)
+	c10R6(p, r)
 }
 
 func c10R1(p *engine.Prog, r *engine.Report, consts map[int64]string, nob map[int64]bool) {
@@ -546,5 +548,106 @@ func appStateRefreshRule(p *engine.Prog, r *engine.Report, rule string, only map
 			}
 		}
 		r.Check(ok, rule, "AppState.Precommit|saves the identity diff", p.Pos(f.Pos()), "prevPrecommitDiff = IdentityState.Precommit(...)", "FinalizePrecommit would refresh the cache from a stale diff")
+	}
+}
+
+// c10R6: a validator cache installed in an AppState is built over that AppState's own
+// identity tree (and god address): a view derived for height h never reads the live registry.
+func c10R6(p *engine.Prog, r *engine.Report) {
+	n := 0
+	for _, f := range funcsOfPkg(p, "core/appstate") {
+		if f.Blocks == nil || isTestish(p.Pos(f.Pos())) {
+			continue
+		}
+		for _, c := range engine.Calls(f) {
+			if !engine.CallIs(c, "core/validators.NewValidatorsCache") {
+				continue
+			}
+			call, ok := c.(*ssa.Call)
+			if !ok {
+				continue
+			}
+			// the AppState objects that receive this cache
+			owners := map[ssa.Value]bool{}
+			var follow func(v ssa.Value, seen map[ssa.Value]bool)
+			follow = func(v ssa.Value, seen map[ssa.Value]bool) {
+				if seen[v] || v.Referrers() == nil {
+					return
+				}
+				seen[v] = true
+				for _, ref := range *v.Referrers() {
+					switch x := ref.(type) {
+					case *ssa.Phi:
+						follow(x, seen)
+					case *ssa.Store:
+						if x.Val != v {
+							continue
+						}
+						if fa, isFA := x.Addr.(*ssa.FieldAddr); isFA {
+							if _, fld, okF := engine.FieldOf(fa); okF && fld == "ValidatorsCache" {
+								owners[engine.Origin(fa.X)] = true
+							}
+						} else if a, isA := x.Addr.(*ssa.Alloc); isA && a.Referrers() != nil {
+							for _, r2 := range *a.Referrers() {
+								if u, isU := r2.(*ssa.UnOp); isU && u.Op == token.MUL {
+									follow(u, seen)
+								}
+							}
+						}
+					}
+				}
+			}
+			follow(call, map[ssa.Value]bool{})
+			if len(owners) == 0 {
+				continue
+			}
+			n++
+			r.Fn(engine.FuncName(f))
+			// the identity tree handed to the constructor belongs to the same owner
+			belongs := func(arg ssa.Value, field string) bool {
+				arg = engine.Origin(arg)
+				for o := range owners {
+					// loaded from owner.<field> (possibly through a method on it)
+					for v := range engine.BackSlice(arg, engine.DefaultSlice) {
+						if fa, isFA := v.(*ssa.FieldAddr); isFA {
+							if _, fld, okF := engine.FieldOf(fa); okF && fld == field && engine.Origin(fa.X) == o {
+								return true
+							}
+						}
+					}
+					// or the very value stored into owner.<field>
+					if o.Referrers() == nil {
+						continue
+					}
+					for _, ref := range *o.Referrers() {
+						fa, isFA := ref.(*ssa.FieldAddr)
+						if !isFA || fa.Referrers() == nil {
+							continue
+						}
+						if _, fld, okF := engine.FieldOf(fa); !okF || fld != field {
+							continue
+						}
+						for _, r2 := range *fa.Referrers() {
+							if st, isSt := r2.(*ssa.Store); isSt && st.Addr == ssa.Value(fa) {
+								for v := range engine.BackSlice(arg, engine.DefaultSlice) {
+									if v == engine.Origin(st.Val) {
+										return true
+									}
+								}
+							}
+						}
+					}
+				}
+				return false
+			}
+			args := engine.CallArgs(c)
+			okID := len(args) >= 2 && belongs(args[0], "IdentityState")
+			okGod := len(args) >= 2 && belongs(args[1], "State")
+			r.Check(okID && okGod, "C10-R6", engine.RelName(f)+"|cache built over the owner's own IdentityState and State", p.InstrPos(c), "NewValidatorsCache(owner.IdentityState, owner.State.GodAddress())", "the validator cache of this AppState is built over another AppState's identity tree: the derived view (fork check, read-only) reads the live registry — ValidatorsCache disagrees with a rebuild from its own IdentityState")
+		}
+	}
+	r.Floor("C10-R6", 2, "ForCheck, Readonly, ForCheckWithOverwrite, Initialize")
+	if n == 0 {
+		r.Und("C10-R6", "NewValidatorsCache", "", "no constructor call found in core/appstate")
 	}
 }
